@@ -114,6 +114,8 @@ ZonedCells ==
      \* or a RangeError, never an overflow in the year arithmetic
      \* (k = 13, 14, 15, 18: beyond the instants; from about 1.9 * 10^14 s the day count leaves 32 bits)
      \cup {[op |-> "MiscX.farProviderQuery", args |-> [zone |-> z, k |-> k, neg |-> n]] : z \in {"America/New_York", "Europe/Berlin", "Asia/Tokyo"}, k \in {12, 13, 14, 15, 18}, n \in BOOLEAN}
+     \* an instant printed without a time zone, with a provider that has no data at all: no zone is involved, so an answer
+     \cup {[op |-> "MiscX.instantTextNoData", args |-> [ns |-> i]] : i \in Insts}
      \* a property bag with an extreme year in the calendars whose arithmetic is this crate's or plain ICU arithmetic (the astronomical
      \* and lunisolar ones assert inside icu_calendar far from the present: C16's recorded finding)
      \cup {[op |-> "MiscX.partialYear", args |-> [cal |-> c, year |-> y, era |-> e]] :
